@@ -838,6 +838,18 @@ func (e *SpecEnv) call(x *SExpr) Val {
 				e.st, e.inOld, e.localSt = saved, savedIn, savedLocal
 				return v
 			}
+		case "iterstart":
+			// the value of an expression (locals included) at the start of the current iteration
+			if e.iterSt == nil {
+				e.fail("iterstart() outside a loop step clause")
+			}
+			{
+				saved, savedIn, savedLocal := e.st, e.inOld, e.localSt
+				e.st, e.localSt = e.iterSt, nil
+				v := e.eval(args[0])
+				e.st, e.inOld, e.localSt = saved, savedIn, savedLocal
+				return v
+			}
 		case "atloop":
 			if e.loopEntry == nil {
 				e.fail("atloop() outside a loop invariant")
